@@ -86,6 +86,7 @@ func (t *joeTrace) perturb() {
 }
 
 var errOwn = errors.New("verif: subscriber write error")
+var errShutdownCause = errors.New("verif: the grace period is over")
 var errReplay = errors.New("verif: replay error")
 var errPut = errors.New("verif: put error")
 
@@ -98,6 +99,7 @@ type joeWriter struct {
 	cancelOn int // cancel the context right after the k-th call (1-based); 0 = never
 	failCanc bool
 	returned bool // guarded by t.mu
+	called   bool // Subscribe was called (guarded by t.mu)
 }
 
 func (w *joeWriter) call(kind string, m *sse.Message) error {
@@ -795,6 +797,7 @@ func runJoe(args []string) string {
 			}
 			t.mu.Lock()
 			t.add(fmt.Sprintf("sc%d", i))
+			w.called = true
 			t.mu.Unlock()
 			err := joe.Subscribe(ctx, sub)
 			t.mu.Lock()
@@ -850,7 +853,9 @@ func runJoe(args []string) string {
 			enterGate()
 		}
 		waitTrigger(tr)
-		ctx, cancel := context.WithCancel(context.Background())
+		// (a context cancelled with a cause of its own: what Shutdown returns is the context's error all the same)
+		ctx, cancelCause := context.WithCancelCause(context.Background())
+		cancel := func() { cancelCause(errShutdownCause) }
 		defer cancel()
 		t.mu.Lock()
 		t.ctxToShut[ctx] = k
@@ -900,6 +905,12 @@ func runJoe(args []string) string {
 	case <-time.After(joePatience):
 		t.mu.Lock()
 		t.fact("CALLS-BLOCKED-AFTER-SHUTDOWN")
+		for i, w := range writers {
+			if w != nil && w.called && !w.returned {
+				// "Subscribe returns … nil when it ended through cancellation or shutdown": it has to return
+				t.fact(fmt.Sprintf("SUBSCRIBE-NEVER-RETURNED(sub%d)", i))
+			}
+		}
 		t.mu.Unlock()
 	}
 	// Joe's goroutine must exit: its last hook (loop.allClosed) must have been recorded — a Shutdown call that lost
